@@ -106,6 +106,28 @@ SCENARIOS['topology'] = dict(
     groups={'g1': 1}, apps=['a1', 'a2', 'a3', 'a4', 'a5', 'a6'])
 
 
+# leases against reboot dates: shapes coincide, so an evictor that fails leaves
+# the tracker primed for its victims
+SCENARIOS['lease'] = dict(
+    dims=2, racks={'r1': ['s1', 's2']}, pods={},
+    sprofiles=[_sp([2, 2], vu=6), _sp([1, 1], vu=9), _sp([2, 2], vu=4)],
+    server_init={'s1': 1, 's2': 2},
+    allocs={'x': _al(), 'y': _al(rank=90)},
+    aprofiles=[_ap([1, 1], lease=3), _ap([1, 1], lease=3, prio=5), _ap([1, 1], lease=0, prio=1),
+               _ap([1, 1], lease=5, prio=3, alloc='y'), _ap([2, 2], lease=3, prio=7)],
+    groups={}, apps=['a1', 'a2', 'a3', 'a4', 'a5'])
+
+# the same allocation path in two partitions (allocation names do not carry the partition)
+SCENARIOS['twins'] = dict(
+    dims=2, racks={'r1': ['s1', 's2'], 'r2': ['s3']}, pods={},
+    sprofiles=[_sp([2, 2]), _sp([2, 2], label='pB'), _sp([2, 2], traits=['t1'])],
+    server_init={'s1': 1, 's2': 2, 's3': 3},
+    allocs={'x': _al(), 'x@pB': _al(label='pB'), 't/y': _al(traits=['t1']), 't/y@pB': _al(label='pB')},
+    aprofiles=[_ap([1, 1]), _ap([1, 1], alloc='x@pB'), _ap([1, 1], alloc='t/y', prio=3),
+               _ap([1, 1], alloc='t/y@pB', prio=2), _ap([2, 1], traits=['t1'])],
+    groups={}, apps=['a1', 'a2', 'a3', 'a4'])
+
+
 def probeify(hist, rng, scn):
     """C02: turn `Cycle, Submit(a,p), Cycle` into `Cycle, Quiesce, Probe(a,p)` and
     end every history with a probe of a not yet used instance name."""
